@@ -1168,8 +1168,10 @@ def nd_ravel(ctx, a):
     if a.ndim == 2:
         snap = a.snapshot()
         w = a.shape[1]
-        return Arr.from_fn((S.mul(a.shape[0], w),), a.dtype,
+        flat = Arr.from_fn((S.mul(a.shape[0], w),), a.dtype,
                            lambda idx: snap.at((S.floordiv(idx[0], w), S.mod(idx[0], w))))
+        flat.ravel_of = snap          # remembered so that a sum over the flat index can be written as a double sum
+        return flat
     raise Unsupported('ravel ndim')
 alias('numpy.ravel', 'method:ndarray.ravel')
 
@@ -1251,6 +1253,12 @@ def np_dot(ctx, a, b, out=None):
         n = a.shape[0]
         if not A.same_dim(ctx, n, b.shape[0]):
             ctx.require('dot inner dimensions', S.eq(n, b.shape[0]), exc='ValueError')
+        ra, rb = getattr(a, 'ravel_of', None), getattr(b, 'ravel_of', None)
+        if ra is not None and rb is not None and S.is_z3(n) and ctx.known(S.and_(S.eq(ra.shape[0], rb.shape[0]), S.eq(ra.shape[1], rb.shape[1]))):
+            # both operands are row-major flattenings of (h, w) arrays: k -> (k // w, k % w) is a bijection
+            # of [0, h w) onto [0, h) x [0, w), so the sum over k is the double sum over (i, j)
+            ctx.assumptions.add('lib[exact]:sum over a row-major flat index = double sum over (row, column)')
+            return _sum_over(ra.shape[0], lambda i: _sum_over(ra.shape[1], lambda j: S.mul(ra.at((i, j)), rb.at((i, j)))))
         return _sum_over(n, lambda k: S.mul(sa.at((k,)), sb.at((k,))))
     else:
         raise Unsupported('dot ndim')
